@@ -169,7 +169,7 @@ PLANS = {
         "rule": "bounded programs of public API calls (start/stop/restart in any order, bootstrap valid/invalid, submissions of every "
                 "operation type incl. an invalid one, add/remove server, Status().State.String() of every state, Configuration().String()) "
                 "on node 0 of 1- and 3-voter clusters with real short timers and a direct in-process transport; each program in its own "
-                "child process under a 20 s watchdog: panic, exit, hang, a future unresolved after its timeout, or a committed and applied "
+                "child process under a 60 s watchdog: panic, exit, hang, a future unresolved after its timeout, or a committed and applied "
                 "membership change whose future timed out while the submitter stayed leader is a violation; 14 scripted programs first. "
                 + COSIM_RULE,
         "assumptions": ["absence of panics/exits/hangs is observed on the explored programs, not proved",
